@@ -256,6 +256,34 @@ fn main() {
         skipped += w.skipped_panics;
     }
 
+    // lexeme strings on the Lexi tree (long / short mnemonics, optional node)
+    {
+        struct LexiA {
+            groups: Groups,
+            execs: u64,
+        }
+        impl Visitor for LexiA {
+            fn visit(&mut self, x: &[u8], _n: usize, _l: usize) {
+                let mut m = mc::ifaces::Lexi;
+                let mut w: heapless::Vec<u8, 16> = heapless::Vec::new();
+                let o = run_on(&mut m, x, &mut w, Pattern::NONE);
+                self.execs += 1;
+                if o.end == End::Returned && o.allocs != 0 {
+                    let f = vec![("engine", "run-long-mnemonics".to_string())];
+                    self.groups.add("no-allocation", &f, (x.len(), x), || {
+                        (json!({"engine": "run-lexi", "input": hex(x)}), format!("run(\"{}\") on the Lexi interface: {} heap allocation calls", show(x), o.allocs))
+                    });
+                }
+            }
+        }
+        let ll = if thorough { 5 } else { 4 };
+        let ws = lex::sweep(lex::SIGMA_LEXEME, ll, args.threads, args.seed, || LexiA { groups: Groups::new(), execs: 0 }, |_, _, _| {}, 600, |_, _| {});
+        for w in ws {
+            out.groups.merge(w.groups);
+            lex_execs += w.execs;
+        }
+    }
+
     // process: streams of <=k pool messages, N in {16, 64}, all chunkings with <=2 cuts
     let k = if thorough { 3 } else { 2 };
     let mut streams: Vec<Vec<u8>> = vec![];
